@@ -45,7 +45,7 @@ ItemBase  == 1000
 \* the fixed library module m2 (text in the harness, ids here)
 LibValues == [a |-> 2001, c |-> 2002, A |-> 2003, C |-> 2004, k |-> 2005]   \* public values
 LibTypeT  == 2006                       \* m2 also declares `pub type T { W }`: same spelling as m1's own type
-LibPrivate == {"p"}
+LibPrivate == {"p", "Q"}                 \* private function p; constructor Q of the private type P
 LibModule == 2000                       \* the module itself (target of an accessor)
 ImportForms == {"none", "plain", "alias", "unq", "unqalias"}
 \* m1 may declare one record type  `type T { T ( a : Int , b : Int ) V ( a : Int , b : Int ) }`: the type T and the
@@ -277,7 +277,7 @@ Step ==
                /\ todo' = Rest /\ UNCHANGED <<frames, pending, budget>>
        [] h.s = "QUALIFIED" ->
             /\ Accessor # ""
-            /\ \E n \in Pick({"a", "c", "p", "k", "A"}) :
+            /\ \E n \in Pick({"a", "c", "p", "k", "A", "Q"}) :
                  /\ out' = out \o <<Tok("FIELD_ACCESS", "open", 0, {}),
                                     Tok(Accessor, "modref", LibModule, Visible), Plain("."),
                                     Tok(n, "qref", IF n \in LibPrivate THEN 0 ELSE LibValues[n], {}),
